@@ -11,6 +11,8 @@ def run(facts, tier):
         ("legacy dispatch", L.dispatch_rule, 10, "readers accept exactly the documented serial versions / types"),
         ("documented semantics", L.documented_semantics, 3, "legacy v1 emptiness rule; single-item sketches are ordered"),
         ("hash constants", L.hash_constants_rule, 8, "literals, shifts and named constants of the hash functions equal the published definitions"),
+        ("hash structure", L.hash_digest_rule, 8, "operator/literal/control structure of the published hash functions equals the reviewed reference implementation"),
+        ("flag decoding", L.flag_provenance, 50, "booleans decoded from the flags byte depend on exactly the documented bits"),
         ("canonical chains", lambda fa: chains.obligations(fa, ["theta", "tuple", "hll", "cpc"], [("theta", "tuple"), ("theta", "cpc")]), 44, "typed update overloads follow the cross-language canonicalisation contract in all four distinct-count families"),
     ):
         o = f(facts)
